@@ -368,7 +368,7 @@ var illKinds = map[string][]string{
 	famDev:  {"scalar", "mapping", "elem_type", "broken_syntax", "str_in_int", "out_of_range"},
 	famCDI:  {"scalar", "mapping", "elem_type", "broken_syntax"},
 	famMnt:  {"scalar", "mapping", "elem_type", "broken_syntax", "scalar_options", "seq_in_string"},
-	famRlim: {"scalar", "mapping", "elem_type", "broken_syntax", "str_in_int", "out_of_range", "unknown_type", "unknown_type", "unknown_type", "hard_lt_soft", "hard_lt_soft", "hard_lt_soft"},
+	famRlim: {"unknown_type", "hard_lt_soft", "unknown_type", "hard_lt_soft", "unknown_type", "hard_lt_soft", "scalar", "mapping", "elem_type", "broken_syntax", "str_in_int", "out_of_range"},
 }
 
 var unknownRlimits = []string{"FOO", "RLIMIT_FOO", "nofiles", "", "RLIMIT_", "RLIMIT", "LIMIT_NOFILE", "NOFILE_", "rlimit_core_", "cpus", "memory"}
@@ -512,13 +512,8 @@ func relatedNames(ctr string) []string {
 var payloadMix = []string{"ok", "ok", "ok", "ok", "ok", "ok", "ok", "ok", "ok", "ok", "ok", "ok", "ok", "ok", "ok", "ok", "ok", "ok", "ok", "ok",
 	"empty", "empty", "ill", "ill", "ill", "nullish"}
 
-var payloadMixRlim = []string{"ok", "ok", "ok", "ok", "ok", "ok", "ok", "ok", "ok", "ok", "ok", "ok", "ok", "ok", "ok", "ok",
+var payloadMixRlim = []string{"ok", "ok", "ok", "ok", "ok", "ok", "ok", "ok", "ok", "ok", "ok", "ok", "ok", "ok",
 	"empty", "ill", "ill", "ill", "ill", "ill", "ill", "nullish"}
-
-// chance is true in about tenths/10 of the draws.
-func chance(t *rapid.T, label string, tenths int) bool {
-	return rapid.SampledFrom([]int{0, 1, 2, 3, 4, 5, 6, 7, 8, 9}).Draw(t, label) < tenths
-}
 
 var unrelatedNames = []string{"mgmt", "sidecar", "init", "z9", "pod"}
 
@@ -547,49 +542,64 @@ func genC20(t *rapid.T) C20Case {
 	}
 	others = uniq
 
-	for _, fam := range families {
-		type slot struct{ scope, target string }
-		var slots []slot
-		if chance(t, fam+"_this", 4) {
-			slots = append(slots, slot{scopeCtr, ctr})
-		}
-		for _, o := range others {
-			if chance(t, fam+"_other", 4) {
-				slots = append(slots, slot{scopeCtr, o})
-			}
-		}
-		if chance(t, fam+"_pod", 4) {
-			slots = append(slots, slot{scopePod, ""})
-		}
-		if chance(t, fam+"_bare", 4) {
-			slots = append(slots, slot{scopeBare, ""})
-		}
-		for _, s := range slots {
-			a := Ann{Family: fam, Scope: s.scope, Target: s.target}
-			a.Style = rapid.SampledFrom([]string{"block", "block", "flow", "json"}).Draw(t, "style")
-			mix := payloadMix
-			if fam == famRlim && s.scope == scopeCtr && s.target == ctr {
-				mix = payloadMixRlim // the adjuster has a single applicable key: give its error paths more weight
-			}
-			switch rapid.SampledFrom(mix).Draw(t, "payload") {
-			case "nullish":
-				a.Ill = "nullish"
-				a.Text = rapid.SampledFrom(nullishTexts).Draw(t, "nullish")
-			case "ill":
-				a.Ill = rapid.SampledFrom(illKinds[fam]).Draw(t, "illkind")
-				a.fill(t, 1)
-				a.Text = a.corrupt(t, a.Ill)
-				// the values of an ill-formed payload play no role in the expectation
-				a.Devices, a.CDI, a.Mounts, a.Rlimits = nil, nil, nil, nil
-			case "empty":
-				a.Text = renderDoc(t, a.node(), a.Style)
-			default:
-				a.fill(t, 1)
-				a.Text = renderDoc(t, a.node(), a.Style)
-			}
-			c.Anns = append(c.Anns, a)
-		}
+	// One generator draw per annotation (family, key, payload), collected into a slice with
+	// distinct keys: rapid can then shrink by deleting whole annotations.
+	// In part of the cases the more specific keys are absent altogether, so that the pod key
+	// and the bare key get to be the applicable ones (and the adjuster has none).
+	var slotKinds []string
+	switch rapid.SampledFrom([]string{"any", "any", "any", "no_this", "no_this", "no_this_no_pod"}).Draw(t, "keyset") {
+	case "any":
+		slotKinds = []string{"this", "this", "this", "pod", "pod", "bare", "bare"}
+	case "no_this":
+		slotKinds = []string{"pod", "pod", "bare", "bare"}
+	default:
+		slotKinds = []string{"bare", "bare"}
 	}
+	if len(others) > 0 {
+		slotKinds = append(slotKinds, "other", "other", "other", "other")
+	}
+	annGen := rapid.Custom(func(t *rapid.T) Ann {
+		fam := rapid.SampledFrom(families).Draw(t, "family")
+		a := Ann{Family: fam}
+		switch rapid.SampledFrom(slotKinds).Draw(t, "slot") {
+		case "this":
+			a.Scope, a.Target = scopeCtr, ctr
+		case "other":
+			a.Scope, a.Target = scopeCtr, rapid.SampledFrom(others).Draw(t, "target")
+		case "pod":
+			a.Scope = scopePod
+		default:
+			a.Scope = scopeBare
+		}
+		a.Style = rapid.SampledFrom([]string{"block", "block", "flow", "json"}).Draw(t, "style")
+		mix := payloadMix
+		if fam == famRlim && a.Scope == scopeCtr && a.Target == ctr {
+			mix = payloadMixRlim // the adjuster has a single applicable key: give its error paths more weight
+		}
+		switch rapid.SampledFrom(mix).Draw(t, "payload") {
+		case "nullish":
+			a.Ill = "nullish"
+			a.Text = rapid.SampledFrom(nullishTexts).Draw(t, "nullish")
+		case "ill":
+			a.Ill = rapid.SampledFrom(illKinds[fam]).Draw(t, "illkind")
+			a.fill(t, 1)
+			a.Text = a.corrupt(t, a.Ill)
+			// the values of an ill-formed payload play no role in the expectation
+			a.Devices, a.CDI, a.Mounts, a.Rlimits = nil, nil, nil, nil
+		case "empty":
+			a.Text = renderDoc(t, a.node(), a.Style)
+		default:
+			a.fill(t, 1)
+			a.Text = renderDoc(t, a.node(), a.Style)
+		}
+		return a
+	})
+	byKey := func(a Ann) string { return a.key() }
+	c.Anns = rapid.OneOf(
+		rapid.SliceOfNDistinct(annGen, 0, 12, byKey),
+		rapid.SliceOfNDistinct(annGen, 6, 20, byKey),
+		rapid.SliceOfNDistinct(annGen, 6, 20, byKey),
+	).Draw(t, "anns")
 	return c
 }
 
